@@ -60,6 +60,8 @@ DoInsert(k, e, t) ==
         /\ \/ /\ T' = r[1]
               /\ R!Insert(k, e, v, t)
               /\ Assert(Refines(T', ents', t), <<"insert refinement", k, e, t>>)
+              \* lazily removed entries are Give steps, the new entry one Take / GrowTake step (PoolSym)
+              /\ Assert(AbsPool(T') = AbsTake(AbsGives(AbsPool(T), Count(T) + 1 - Count(T'))), "insert: abstract pool steps")
               /\ path' = path \o "i " \o I2S(k) \o " " \o I2S(e) \o " " \o I2S(v) \o " " \o I2S(t) \o ";"
            \/ /\ Faults
               /\ \E j \in 1..Len(r[2]) : T' = r[2][j].T      \* PanicAt(insert, j)
@@ -79,6 +81,7 @@ DoQuery(mode, p, t) ==
         /\ \/ /\ T' = q[1]
               /\ Assert(q[2] = ref, <<"query result", mode, p, t, q[2], ref>>)
               /\ Assert(Refines(T', ents', t), <<"query refinement", mode, p, t>>)
+              /\ Assert(AbsPool(T') = AbsGives(AbsPool(T), Count(T) - Count(T')), "query: abstract pool steps")
               /\ path' = path \o mode \o " " \o I2S(t) \o " " \o I2S(p) \o ";"
            \/ /\ Faults
               /\ \E j \in 1..Len(q[3]) : T' = q[3][j].T      \* PanicAt(query, j)
@@ -88,6 +91,7 @@ DoClear ==
   /\ T' = Clear(T)
   /\ R!Clear
   /\ Assert(Phys(T') = {} /\ Len(T'.free) = Len(T'.nd) - 1, "clear: entries left or slots not returned")
+  /\ Assert(AbsPool(T') = AbsGives(AbsPool(T), Count(T)), "clear: abstract pool steps")
   /\ path' = path \o "c;"
 
 Next == \/ \E k \in Keys, e \in Exps, t \in Times : DoInsert(k, e, t)
